@@ -130,6 +130,7 @@ def session(ctx, r, idx):
 		i = r.randrange(2)
 		node = bench.nodes[i]
 		w = {"history": log[-10:]}
+		dirty = False
 		if r.random() < 0.55:
 			payload, kind, parsed = hostile_ctrl(r)
 			log.append("%s CTRL <- %s: %r" % (specs[i]["name"], kind, payload[:60]))
@@ -170,6 +171,7 @@ def session(ctx, r, idx):
 					return
 			elif rsp:
 				ctx.count("malformed_answered")
+				dirty = True
 				p = trxc.parse_response(rsp[0])
 				txt = payload[4:].split(b"\0")[0]
 				toks = txt.decode("ascii", "replace").strip().split(" ")
@@ -181,6 +183,11 @@ def session(ctx, r, idx):
 						return
 			else:
 				ctx.count("malformed_ignored")
+			if dirty:
+				# a datagram beginning with CMD that is not one of the well-formed templates may still have
+				# been understood as some command: bring model and transceiver back in step before going on
+				if not resync(ctx, r, bench, log, (i,)):
+					return
 		else:
 			payload, kind = hostile_data(r)
 			log.append("%s DATA <- %s (%d octets)" % (specs[i]["name"], kind, len(payload)))
@@ -251,20 +258,25 @@ def undo_model(m, parsed):
 		m.trxc_delay_ms = 0
 
 
-def probe(ctx, r, bench, specs, log):
+def resync(ctx, r, bench, log, nodes = (0, 1)):
+	""" Re-establish every modelled setting with valid absolute commands, so that the
+	    reference model and the transceiver agree again whatever a hostile datagram did. """
 	try:
-		for i in range(2):
-			for c in REESTABLISH:
+		for i in nodes:
+			for c in REESTABLISH + ["SETFORMAT %d" % r.choice((0, 1))]:
 				st = bench.nodes[i].ctrl(c)
-				trxc.apply(bench.models[i], c.split(" ")[0], c.split(" ")[1:], bench.models)
+				mst, _ = trxc.apply(bench.models[i], c.split(" ")[0], c.split(" ")[1:], bench.models)
 				if c.startswith("FAKE_DROP"):
 					bench.budgets[i].set(0, 1)
-				if st != 0:
-					ctx.violation("probe", {"history": log[-10:], "command": c}, what = "valid command %s answered %d after hostile input" % (c, st))
+				if st != mst:
+					ctx.violation("probe", {"history": log[-10:], "command": c},
+						what = "valid command %s answered %d (expected %d) after hostile input" % (c, st, mst))
 					return False
 			rx, tx = (890000, 935000) if i == 0 else (935000, 890000)
 			# POWEROFF forgets hopping, tuning is repeated, POWERON brings it back
-			for c in ("POWEROFF", "RXTUNE %d" % rx, "TXTUNE %d" % tx, "POWERON"):
+			bench.nodes[i].ctrl("POWEROFF")
+			trxc.apply(bench.models[i], "POWEROFF", [], bench.models)
+			for c in ("RXTUNE %d" % rx, "TXTUNE %d" % tx, "POWERON"):
 				st = bench.nodes[i].ctrl(c)
 				mst, _ = trxc.apply(bench.models[i], c.split(" ")[0], c.split(" ")[1:], bench.models)
 				if st != mst:
@@ -277,6 +289,17 @@ def probe(ctx, r, bench, specs, log):
 	except Exception as e:
 		ctx.violation("probe", {"history": log[-10:], "traceback": tb(e)}, what = "valid command raises %s after hostile input" % type(e).__name__)
 		return False
+	ctx.count("resyncs")
+	return True
+
+
+def probe(ctx, r, bench, specs, log):
+	if not resync(ctx, r, bench, log):
+		return False
+	return probe_burst(ctx, r, bench, specs, log)
+
+
+def probe_burst(ctx, r, bench, specs, log):
 	s = r.randrange(2)
 	bits = trxd.rand_bits(r, 148)
 	m = {"dir": "tx", "ver": bench.models[s].ver, "fn": r.randrange(trxd.HYPERFRAME), "tn": r.randrange(8), "pwr": 0, "bits": bits}
